@@ -751,12 +751,12 @@ fn gen_transport(run: &mut Run, prop: &str, seed: u64, thorough: bool) {
                 }
                 let res_s = if res == "ring" { "fb(ring,default)" } else { res };
                 let cfg = TransportCfg { name: (*n).into(), res_i: res_s.into(), res_r: if res == "ring" && rep % 2 == 0 { "default".into() } else { res_s.into() }, seed: r.next(), steps: if thorough { 120 } else { 60 } };
-                if matches!(prop, "C01" | "C02" | "C04" | "C05" | "C09" | "C15" | "C14" | "C19" | "C10" | "C11" | "C07" | "C06" | "C20") {
+                if matches!(prop, "C01" | "C02" | "C04" | "C05" | "C09" | "C15" | "C14" | "C19" | "C10" | "C11" | "C07" | "C06" | "C20" | "C17") {
                     let mut sc = Sc::new();
                     run_transport(&cfg, &mut sc);
                     run.add("transport", format!("{prop} transport {n} {res} #{rep}"), sc);
                 }
-                if matches!(prop, "C01" | "C02" | "C04" | "C05" | "C09" | "C11" | "C16" | "C15" | "C10" | "C19" | "C14" | "C06" | "C07") {
+                if matches!(prop, "C01" | "C02" | "C04" | "C05" | "C09" | "C11" | "C16" | "C15" | "C10" | "C19" | "C14" | "C06" | "C07" | "C17") {
                     let mut sc = Sc::new();
                     run_stateless(&cfg, &mut sc);
                     run.add("stateless", format!("{prop} stateless {n} {res} #{rep}"), sc);
@@ -999,7 +999,10 @@ fn run_prop(prop: &str, thorough: bool, seed: u64) -> Run {
             gen_transport(&mut run, prop, seed, thorough);
             gen_threads(&mut run, seed, thorough);
         },
-        "C17" => gen_hs(&mut run, prop, seed, thorough),
+        "C17" => {
+            gen_hs(&mut run, prop, seed, thorough);
+            gen_transport(&mut run, prop, seed, thorough);
+        },
         "C18" => {
             prim::gen_prim(&mut run, seed, thorough, false);
             gen_api(&mut run, seed, thorough);
@@ -1119,10 +1122,16 @@ fn exec_line(ex: &mut Exec, line: &str) {
             ex.query(parse_u(parts[1]));
         },
         "to_transport" => {
-            ex.convert(parse_u(parts[1]), false);
+            ex.convert_via(parse_u(parts[1]), false, false);
         },
         "to_stateless" => {
-            ex.convert(parse_u(parts[1]), true);
+            ex.convert_via(parse_u(parts[1]), true, false);
+        },
+        "to_transport_tf" => {
+            ex.convert_via(parse_u(parts[1]), false, true);
+        },
+        "to_stateless_tf" => {
+            ex.convert_via(parse_u(parts[1]), true, true);
         },
         "t_write" => {
             ex.t_write(parse_u(parts[1]), &b(parts[2]), parse_u(parts[3]));
